@@ -2,8 +2,8 @@
     no diagnostic from check_value; an application the specification accepts gets none from check_arguments. *)
 From V Require Import Base.Util Gql.Ast C05.Model C05.Spec C05.Proofs C05.Proofs2 C05.Proofs3 C05.Proofs4.
 
-Lemma builtin_scalar_complete b n v :
-  (if str_eqb n (s "Int") then (match v with VInt _ x => negb b || int32 x | _ => false end)
+Lemma builtin_scalar_complete n v :
+  (if str_eqb n (s "Int") then (match v with VInt _ x => negb true || int32 x | _ => false end)
    else if str_eqb n (s "Float") then (match v with VInt _ _ | VFloat _ _ => true | _ => false end)
    else if str_eqb n (s "String") then (match v with VString _ _ => true | _ => false end)
    else if str_eqb n (s "Boolean") then (match v with VBool _ _ => true | _ => false end)
@@ -14,7 +14,7 @@ Proof.
   unfold builtin_scalar_ok.
   destruct (str_eqb n (s "Boolean")) eqn:E1.
   { apply str_eqb_eq in E1. subst n. cbn. destruct v; try reflexivity; discriminate. }
-  destruct (str_eqb n (s "Int")) eqn:E2; [destruct v; try reflexivity; discriminate|].
+  destruct (str_eqb n (s "Int")) eqn:E2; [destruct v; try reflexivity; try discriminate; intros H; rewrite parses_as_i32_int32; exact H|].
   destruct (str_eqb n (s "Float")) eqn:E3; [destruct v; try reflexivity; discriminate|].
   destruct (str_eqb n (s "String")) eqn:E4; [destruct v; try reflexivity; discriminate|].
   destruct (str_eqb n (s "ID")) eqn:E5; [destruct v; try reflexivity; discriminate|].
@@ -61,7 +61,6 @@ Qed.
 
 Section ValuesComplete.
   Variable doc : tsdoc.
-  Variable b : bool.
   Hypothesis Hdupin : ok_dup_input_field doc = true.
   Hypothesis Hunk : ok_unknown_type doc = true.
   Hypothesis Hoi : ok_output_in_input doc = true.
@@ -124,9 +123,9 @@ Section ValuesComplete.
   Lemma check_named_complete v t n :
     (forall x q, v <> VVar x q) ->
     (forall p fs, v = VObject p fs ->
-       Forall (fun kv => forall t, input_ty t -> value_ok b doc (snd kv) t = true -> check_value doc (snd kv) t = []) fs) ->
+       Forall (fun kv => forall t, input_ty t -> value_ok true doc (snd kv) t = true -> check_value doc (snd kv) t = []) fs) ->
     is_input_named doc (iname n) = Some true ->
-    (match v with VNull _ => True | _ => named_ok (value_ok b doc) b doc v n = true end) ->
+    (match v with VNull _ => True | _ => named_ok (value_ok true doc) true doc v n = true end) ->
     check_named (check_value doc) doc v t n = [].
   Proof.
     intros Hv HIH Hin. unfold check_named, named_ok, is_input_named in *. rewrite first_type_lookup.
@@ -134,17 +133,17 @@ Section ValuesComplete.
     apply lookup_t_In in L as [Lin Ln]. destruct td; try discriminate.
     - intros H. unfold tn in Ln. cbn [typedef_name] in Ln. rewrite Ln.
       assert (Hb : builtin_scalar_ok (iname n) v = true).
-      { destruct v; try (apply (builtin_scalar_complete b); exact H); apply builtin_scalar_null. }
+      { destruct v; try (apply builtin_scalar_complete; exact H); apply builtin_scalar_null. }
       rewrite Hb. reflexivity.
     - destruct v; try discriminate; [reflexivity|]. intros H. rewrite (existsb_forallb_negb _ _ H). reflexivity.
     - destruct v; try discriminate; [reflexivity|]. intros H. apply andb_true_iff in H as [H H3]. apply andb_true_iff in H as [H1 H2].
-      destruct (input_object_complete (check_value doc) (value_ok b doc) fields fs
+      destruct (input_object_complete (check_value doc) (value_ok true doc) fields fs
                   (input_fields_nodup' _ _ _ _ _ _ Lin) (fun fd Hfd => input_field_input_ty _ _ _ _ _ _ fd Lin Hfd)
                   (HIH _ fs eq_refl) H1 H2 H3) as [A B].
       destruct (input_object_check (check_value doc) fields fs) as [[errs ok] info]. cbn [fst snd] in A, B. subst. reflexivity.
   Qed.
 
-  Lemma value_complete v : forall t, input_ty t -> value_ok b doc v t = true -> check_value doc v t = [].
+  Lemma value_complete v : forall t, input_ty t -> value_ok true doc v t = true -> check_value doc v t = [].
   Proof.
     induction v using value_ind'; intros t; induction t as [tn0|t IHt|tq t IHt]; intros Hity;
       rewrite check_value_eq, value_ok_eq; try discriminate; intros Hc;
@@ -168,7 +167,7 @@ Section ValuesComplete.
     (forall ad, In ad (args_of (dd_args d)) -> input_ty (iv_type ad)) ->
     NoDup (keys_of (app_args a)) ->
     (match dir_args a with Some x => args_list x <> [] | None => True end) ->
-    app_args_ok b doc a d = true ->
+    app_args_ok true doc a d = true ->
     check_arguments doc ppos pname kind (dir_args a) (opt_list (dd_args d)) = [].
   Proof.
     intros Hnd Hity Hkeys Hne. revert Hnd Hity Hkeys.
@@ -179,7 +178,7 @@ Section ValuesComplete.
     unfold check_arguments, app_args in *.
     set (al := match dir_args a with Some x => args_list x | None => [] end) in *.
     set (apos := match dir_args a with None => ppos | Some a0 => args_pos a0 end).
-    assert (Hknown : forall k v, In (k, v) al -> exists ad, arg_named defs (iname k) = Some ad /\ value_ok b doc v (iv_type ad) = true).
+    assert (Hknown : forall k v, In (k, v) al -> exists ad, arg_named defs (iname k) = Some ad /\ value_ok true doc v (iv_type ad) = true).
     { intros k v Hin. specialize (Hgiven (k, v) Hin). cbn [fst snd] in Hgiven.
       destruct (arg_named defs (iname k)) as [ad|]; [exists ad; split; [reflexivity | exact Hgiven] | discriminate]. }
     assert (Herrs : flat_map (arg_errs doc al apos) defs = []).
